@@ -219,16 +219,21 @@ impl UserDefinedDataReader {
             return Err(DdsError::NotEnabled);
         }
 
-        match self.next_instance(previous_handle) {
-            Some(next_handle) => self.take(
+        // Skip instances without samples matching the masks
+        let mut previous_handle = *previous_handle;
+        while let Some(next_handle) = self.next_instance(&previous_handle) {
+            match self.take(
                 max_samples,
                 sample_states,
                 view_states,
                 instance_states,
                 &Some(next_handle),
-            ),
-            None => Err(DdsError::NoData),
+            ) {
+                Err(DdsError::NoData) => previous_handle = Some(next_handle),
+                result => return result,
+            }
         }
+        Err(DdsError::NoData)
     }
 
     pub fn read_next_instance(
@@ -243,15 +248,20 @@ impl UserDefinedDataReader {
             return Err(DdsError::NotEnabled);
         }
 
-        match self.next_instance(previous_handle) {
-            Some(next_handle) => self.read(
+        // Skip instances without samples matching the masks
+        let mut previous_handle = *previous_handle;
+        while let Some(next_handle) = self.next_instance(&previous_handle) {
+            match self.read(
                 max_samples,
                 sample_states,
                 view_states,
                 instance_states,
                 &Some(next_handle),
-            ),
-            None => Err(DdsError::NoData),
+            ) {
+                Err(DdsError::NoData) => previous_handle = Some(next_handle),
+                result => return result,
+            }
         }
+        Err(DdsError::NoData)
     }
 }
